@@ -381,6 +381,20 @@ def enrich_topology(draw, topo, eq, feats):
             p = el['params']
             degs = [c['to_node'] for c in conns if c['from_node'] == el['uid'] and not c['to_node'].startswith('trx')]
             ins = [c['from_node'] for c in conns if c['to_node'] == el['uid'] and not c['from_node'].startswith('trx')]
+            if len(degs) >= 2 and draw(st.integers(0, 3)) == 0:
+                # a ROADM whose egress degrees use different equalisation kinds (elements.Roadm keeps one table per kind)
+                d1, d2 = draw(st.permutations(degs))[:2]
+                k1, k2 = draw(st.permutations(['per_degree_pch_out_db', 'per_degree_psd_out_mWperGHz',
+                                               'per_degree_psd_out_mWperSlotWidth']))[:2]
+                vals = {'per_degree_pch_out_db': [-20, -18.5, -22], 'per_degree_psd_out_mWperGHz': [3.125e-4, 2.5e-4],
+                        'per_degree_psd_out_mWperSlotWidth': [2e-4, 1.5e-4]}
+                for d, k in ((d1, k1), (d2, k2)):
+                    for kk in vals:
+                        p.get(kk, {}).pop(d, None)
+                    p.setdefault(k, {})[d] = draw(st.sampled_from(vals[k]))
+                for kk in vals:
+                    if kk in p and not p[kk]:
+                        del p[kk]
             for k in ('per_degree_pch_out_db', 'per_degree_psd_out_mWperGHz', 'per_degree_psd_out_mWperSlotWidth'):
                 if k in p:
                     feats.add(k)
